@@ -16,11 +16,11 @@ PARSE = 'cssutils/parse.py'
 
 
 def run(chk):
-    r08a(chk)
-    r08b(chk)
-    r08c(chk)
-    r08d(chk)
-    r08e(chk)
+    chk.attempt(r08a, chk)
+    chk.attempt(r08b, chk)
+    chk.attempt(r08c, chk)
+    chk.attempt(r08d, chk)
+    chk.attempt(r08e, chk)
 
 
 def r08a(chk, rid='R08.a'):
